@@ -97,4 +97,13 @@ def memoRun {ι κ β : Type} [BEq κ] (key : ι → κ) (f : ι → β) : List 
   | _, [] => []
   | tbl, a :: as => (memoStep key f tbl a).1 :: memoRun key f (memoStep key f tbl a).2 as
 
+/-! ### resolution of the kernel argument (`KERNELS.get(kernel, kernel)` in `psd_dft`) -/
+
+/-- the kernel argument is looked up in the table of registered kernel names under `key arg`; an argument that is not found is a path and
+is passed on literally.  The library uses `key = id` (the argument itself is the name). -/
+def resolveKernel {ι κ : Type} [BEq κ] (key : ι → κ) (registered : List (κ × ι)) (arg : ι) : ι :=
+  match registered.lookup (key arg) with
+  | some shippedPath => shippedPath
+  | none => arg
+
 end PgVerif.Model.Kernel
